@@ -304,7 +304,20 @@ def check_c16(root, pid, tier, seed, replay):
     if ndis != 0:
         stats['disagreements'] += 1
         bad = [l for l in out.splitlines() if l.startswith('DISAGREE')]
-        stats['disagree_samples'].append(('utf8', 0, (bad[0] if bad else out[-200:]), '# the Coq automaton utf8_valid disagrees with std::str::from_utf8\n' + '\n'.join(bad[:5]) + '\n'))
+        stats['disagree_samples'].append(('utf8', 0, (bad[0] if bad else out[-200:]), '# the Coq automaton utf8_valid / decoder Lossy.lossy disagrees with std::str::from_utf8 / String::from_utf8_lossy\n' + '\n'.join(bad[:5]) + '\n'))
+    # the same for UTF-16: Lossy.utf16_decode against String::from_utf16 / from_utf16_lossy
+    dump = os.path.join(root, '.cache', 'tmp', 'utf16_dump_%d.txt' % os.getpid())
+    rc, out = lsv.sh('%s utf16 %d dump | grep -v "^checked" > %s' % (rn, 5 if tier == 'quick' else 6, dump), 1800)
+    rc, out = lsv.sh([md, '--utf16', dump], 3000)
+    os.remove(dump)
+    m = re.search(r'utf16_decode compared (\d+) disagreements (\d+)', out)
+    ncmp16, ndis16 = (int(m.group(1)), int(m.group(2))) if m else (0, -1)
+    res.cov['utf16_decode_model_vs_std'] = {'compared': ncmp16, 'disagreements': ndis16}
+    stats['compared'] += ncmp16; stats['steps'] += ncmp16
+    if ndis16 != 0:
+        stats['disagreements'] += 1
+        bad = [l for l in out.splitlines() if l.startswith('DISAGREE')]
+        stats['disagree_samples'].append(('utf16', 0, (bad[0] if bad else out[-200:]), '# the Coq decoder utf16_decode disagrees with String::from_utf16(_lossy)\n' + '\n'.join(bad[:5]) + '\n'))
     stats['nontrivial'] = set(range(3))
     res.samples = [['utf8 class alphabet 00 41 7f 80 8f 90 9f a0 bf c0 c2 df e0 e1 ed ef f0 f1 f4 f5, all sequences up to length %d' % u8len,
                     'utf16 alphabet 0041 00e9 d7ff d800 dbff dc00 dfff e000, all sequences up to length %d' % u16len]]
